@@ -138,7 +138,7 @@ Section Codec.
 
   Lemma load_frames d rs :
     log_bytes d = frames rs -> Forall small rs ->
-    load_mem dec d = match apply_changes (base_of d) (concat rs) with inl s => (s, true) | inr e => (e, false) end.
+    load_mem dec d = match apply_log (base_of d) (concat rs) with inl s => (s, true) | inr e => (e, false) end.
   Proof. intros Hl Hs. unfold load_mem. rewrite Hl, recover_frames by exact Hs. reflexivity. Qed.
 
   (** Crash while a record is being appended (the write may be torn at ANY byte):
@@ -148,7 +148,7 @@ Section Codec.
     let d' := with_log d (log_bytes d ++ firstn k (frame (enc r))) in
     (k < length (frame (enc r)) -> load_mem dec d' = load_mem dec d) /\
     (k = length (frame (enc r)) ->
-       load_mem dec d' = match apply_changes (base_of d) (concat rs ++ r) with inl s => (s, true) | inr e => (e, false) end).
+       load_mem dec d' = match apply_log (base_of d) (concat rs ++ r) with inl s => (s, true) | inr e => (e, false) end).
   Proof.
     intros Hl Hs Hr Hk d'.
     assert (Hlb : log_bytes d' = frames rs ++ firstn k (frame (enc r))).
@@ -166,7 +166,21 @@ Section Codec.
   Qed.
 
   (** * Replaying adds over a schema that already contains them *)
-  Definition adds_only (cs : list pchange) : Prop := forall c, In c cs -> N.eqb (pc_ct c) CT_DEL = false.
+  Definition adds_only (cs : list pchange) : Prop :=
+    forall c, In c cs -> N.eqb (pc_ct c) CT_DEL = false /\ pc_field c = true.
+
+  Lemma has_del_adds_only m cs : adds_only cs -> has_del m cs = false.
+  Proof.
+    intro Ha. unfold has_del. destruct (existsb _ cs) eqn:E; [|reflexivity].
+    apply existsb_exists in E as [c [Hin Hc]]. rewrite (proj1 (Ha c Hin)) in Hc. discriminate.
+  Qed.
+
+  Lemma live_adds_only cs : adds_only cs -> live cs = cs.
+  Proof.
+    induction cs as [|c cs IH]; intro Ha; [reflexivity|]. cbn.
+    assert (Ha' : adds_only cs) by (intros c' Hin; apply Ha; right; exact Hin).
+    rewrite (has_del_adds_only _ _ Ha'), IH by exact Ha'. reflexivity.
+  Qed.
   Definition agrees (mem : schema) (cs : list pchange) : Prop :=
     forall c, In c cs -> ftype mem (pc_meas c) (pc_fname c) = Some (pc_ftype c).
   Definition same_types (a b : schema) : Prop := forall m f, ftype a m f = ftype b m f.
@@ -177,7 +191,7 @@ Section Codec.
   Proof.
     induction cs as [|c cs IH]; intros s mem Ha Hg Hs; cbn.
     - exists s; split; [reflexivity | exact Hs].
-    - unfold apply_change. rewrite (Ha c (or_introl eq_refl)).
+    - unfold apply_change. destruct (Ha c (or_introl eq_refl)) as [Hct Hfd]. rewrite Hct, Hfd. cbn [negb].
       assert (Hc : ftype (ensure_meas s (pc_meas c)) (pc_meas c) (pc_fname c) = Some (pc_ftype c)).
       { rewrite ftype_ensure, Hs. apply Hg. left; reflexivity. }
       destruct (create_existed _ _ _ _ Hc) as [H1 H2].
@@ -193,7 +207,7 @@ Section Codec.
   Proof.
     induction cs as [|c cs IH]; intros s s' Ha H; cbn in H.
     - inversion H; subst. apply ext_refl.
-    - unfold apply_change in H. rewrite (Ha c (or_introl eq_refl)) in H.
+    - unfold apply_change in H. destruct (Ha c (or_introl eq_refl)) as [Hct Hfd]. rewrite Hct, Hfd in H. cbn [negb] in H.
       destruct (create_field (ensure_meas s (pc_meas c)) (pc_meas c) (pc_fname c) (pc_ftype c)) as [s1 r] eqn:Ec.
       assert (He : ext s s1).
       { intros m f t Hx. replace s1 with (fst (create_field (ensure_meas s (pc_meas c)) (pc_meas c) (pc_fname c) (pc_ftype c)))
@@ -205,7 +219,7 @@ Section Codec.
   Lemma apply_self cs : forall s mem, adds_only cs -> apply_changes s cs = inl mem -> agrees mem cs.
   Proof.
     induction cs as [|c cs IH]; intros s mem Ha H; [intros c []|].
-    cbn in H. unfold apply_change in H. rewrite (Ha c (or_introl eq_refl)) in H.
+    cbn in H. unfold apply_change in H. destruct (Ha c (or_introl eq_refl)) as [Hct Hfd]. rewrite Hct, Hfd in H. cbn [negb] in H.
     pose proof (create_cases (ensure_meas s (pc_meas c)) (pc_meas c) (pc_fname c) (pc_ftype c)) as Hc.
     destruct (create_field (ensure_meas s (pc_meas c)) (pc_meas c) (pc_fname c) (pc_ftype c)) as [s1 r] eqn:Ec.
     cbn in Hc.
@@ -224,6 +238,86 @@ Section Codec.
       eapply apply_ext; [exact Ha' | exact H |]. apply Hnew. discriminate.
   Qed.
 
+  (** * A logged deletion wins over everything logged before it, over ANY fields.idx *)
+  Definition concerns (m : name) (c : pchange) : bool := name_eqb (pc_meas c) m.
+  Definition is_del (c : pchange) : bool := N.eqb (pc_ct c) CT_DEL.
+
+  Lemma apply_change_other s c m f s' :
+    concerns m c = false -> apply_change s c = inl s' -> ftype s' m f = ftype s m f.
+  Proof.
+    unfold concerns, apply_change. intros Hc H. apply name_eqb_neq in Hc.
+    destruct (N.eqb (pc_ct c) CT_DEL).
+    - inversion H; subst. apply ftype_drop_other. exact Hc.
+    - destruct (negb (pc_field c)); [inversion H; reflexivity|].
+      destruct (create_field (ensure_meas s (pc_meas c)) (pc_meas c) (pc_fname c) (pc_ftype c)) as [s1 r] eqn:Ec.
+      assert (Hs1 : s1 = fst (create_field (ensure_meas s (pc_meas c)) (pc_meas c) (pc_fname c) (pc_ftype c))) by (rewrite Ec; reflexivity).
+      destruct r; inversion H; subst s'; rewrite Hs1, ftype_create_other by congruence; apply ftype_ensure.
+  Qed.
+
+  Lemma apply_changes_other cs : forall s s' m f,
+    forallb (fun c => negb (concerns m c)) cs = true -> apply_changes s cs = inl s' -> ftype s' m f = ftype s m f.
+  Proof.
+    induction cs as [|c cs IH]; intros s s' m f Hn H; cbn in *.
+    - inversion H; reflexivity.
+    - apply andb_true_iff in Hn as [Hc Hn]. apply negb_true_iff in Hc.
+      destruct (apply_change s c) as [s1|e] eqn:E; [|discriminate].
+      rewrite (IH _ _ _ _ Hn H). eapply apply_change_other; eassumption.
+  Qed.
+
+  (** [ends_dropped m cs]: the last change of the log that concerns m is a deletion. *)
+  Fixpoint ends_dropped (m : name) (cs : list pchange) : bool :=
+    match cs with
+    | [] => false
+    | c :: r => if concerns m c
+                then (if forallb (fun c' => negb (concerns m c')) r then is_del c else ends_dropped m r)
+                else ends_dropped m r
+    end.
+
+  Lemma live_no_concern m cs :
+    forallb (fun c => negb (concerns m c)) cs = true -> forallb (fun c => negb (concerns m c)) (live cs) = true.
+  Proof.
+    induction cs as [|c cs IH]; intro H; [reflexivity|]. cbn in *. apply andb_true_iff in H as [H1 H2].
+    destruct (has_del (pc_meas c) cs); [apply IH; exact H2|]. cbn. rewrite H1. apply IH; exact H2.
+  Qed.
+
+  Lemma has_del_no_concern m cs : forallb (fun c => negb (concerns m c)) cs = true -> has_del m cs = false.
+  Proof.
+    intro H. unfold has_del. destruct (existsb _ cs) eqn:E; [|reflexivity].
+    apply existsb_exists in E as [c [Hin Hc]]. rewrite forallb_forall in H. specialize (H c Hin).
+    apply andb_true_iff in Hc as [_ Hc]. unfold concerns in H. rewrite Hc in H. discriminate.
+  Qed.
+
+  Lemma drop_wins cs : forall s s' m f,
+    ends_dropped m cs = true -> apply_log s cs = inl s' -> ftype s' m f = None.
+  Proof.
+    unfold apply_log.
+    induction cs as [|c cs IH]; intros s s' m f He H; [discriminate|]. cbn in He, H.
+    destruct (concerns m c) eqn:Ec.
+    - unfold concerns in Ec. apply name_eqb_eq in Ec.
+      destruct (forallb (fun c' => negb (concerns m c')) cs) eqn:En.
+      + (* c is the last change of m: a deletion, kept by [live] *)
+        rewrite Ec, (has_del_no_concern m cs En) in H. cbn in H.
+        unfold is_del in He. unfold apply_change in H. rewrite He in H.
+        rewrite (apply_changes_other (live cs) _ _ m f (live_no_concern _ _ En) H).
+        rewrite Ec. apply ftype_drop_same.
+      + destruct (has_del (pc_meas c) cs); [eapply IH; eassumption|].
+        cbn in H. destruct (apply_change s c) as [s1|e]; [|discriminate]. eapply IH; eassumption.
+    - destruct (has_del (pc_meas c) cs); [eapply IH; eassumption|].
+      cbn in H. destruct (apply_change s c) as [s1|e]; [|discriminate]. eapply IH; eassumption.
+  Qed.
+
+  (** Disk level: whatever fields.idx holds (older or newer than the log — i.e. at every
+      crash point between the snapshot rewrite and the removal of the log), if the log's
+      last word on m is a deletion, a successful load has no field of m. *)
+  Lemma drop_stays_dropped_any_snapshot d rs m f s :
+    log_bytes d = frames rs -> Forall small rs -> ends_dropped m (concat rs) = true ->
+    load_mem dec d = (s, true) -> ftype s m f = None.
+  Proof.
+    intros Hl Hs He H. rewrite (load_frames d rs Hl Hs) in H.
+    destruct (apply_log (base_of d) (concat rs)) as [s0|e] eqn:E; inversion H; subst.
+    eapply drop_wins; eassumption.
+  Qed.
+
   (** * Crash points of WriteToFile (snapshot rewrite, then removal of the change log) *)
   Lemma compact_crash mem d rs j :
     log_bytes d = frames rs -> Forall small rs ->
@@ -240,7 +334,7 @@ Section Codec.
       { intros dd Hb Hll. rewrite (load_frames dd rs Hll Hs).
         assert (Hst : same_types (base_of dd) mem) by (destruct Hb as [-> | [-> ->]]; intros m f; reflexivity).
         destruct (apply_agree (concat rs) (base_of dd) mem Ha Hg Hst) as [s' [H1 H2]].
-        rewrite H1. exists s'. split; [reflexivity | exact H2]. }
+        unfold apply_log. rewrite (live_adds_only _ Ha), H1. exists s'. split; [reflexivity | exact H2]. }
       assert (Hnolog : forall dd, base_of dd = mem \/ (mem = [] /\ base_of dd = []) -> d_log dd = None ->
                 exists s, load_mem dec dd = (s, true) /\ same_types s mem).
       { intros dd Hb Hn. unfold load_mem, log_bytes. rewrite Hn. cbn. fold (base_of dd).
